@@ -116,6 +116,108 @@ def json_short(x):
     return json.dumps(x)[:400]
 
 
+C_OPS = 'w~&|^n=<>x+-*s'
+
+
+def c_expected(net, vals):
+    """documented value of the net's destination for operand values `vals` (destination width may be narrower)"""
+    op, wd = net.op, len(net.dests[0])
+    m = (1 << wd) - 1
+    a = vals[0]
+    b = vals[1] if len(vals) > 1 else 0
+    if op == 'w':
+        return a & m
+    if op == '~':
+        return ~a & m
+    if op in '&|^':
+        return {'&': a & b, '|': a | b, '^': a ^ b}[op] & m
+    if op == 'n':
+        return ~(a & b) & m
+    if op == '=':
+        return int(a == b) & m
+    if op == '<':
+        return int(a < b) & m
+    if op == '>':
+        return int(a > b) & m
+    if op == 'x':
+        return (vals[2] if a else vals[1]) & m
+    if op == '+':
+        return (a + b) & m
+    if op == '-':
+        return (a - b) & m
+    if op == '*':
+        return (a * b) & m
+    if op == 's':
+        return sum(((a >> i) & 1) << k for k, i in enumerate(net.op_param)) & m
+    raise ValueError(op)
+
+
+def climb_tie(ctx):
+    """Tie A for the C backend: the statements CompiledSimulation generates for every combinational net of random
+    designs (limb-boundary widths, raw narrower destinations) are parsed (vlib/cparse.py) and must be, statement for
+    statement, the program Model/Sim/CLimb.lean emits for that (op, operand widths, destination width, parameter);
+    the model program is also executed on operand values against the documented value of the net."""
+    from vlib import cparse
+    rng = ctx.rng
+    n_nets = bad_text = bad_val = skipped = 0
+    examples = []
+    for k in range(ctx.n(25, 400)):
+        d = gen.rand_design(rng, profile=rng.choice(['limb', 'limb', 'med', 'small']), nops=rng.randint(4, 14), nmems=rng.choice([0, 1]),
+                            nroms=0)
+        try:
+            sim = pyrtl.CompiledSimulation(block=d.block)
+        except Exception:  # noqa  (construction failures are reported by the main loop)
+            continue
+        code = []
+        sim._create_code(code.append)
+        secs = cparse.net_sections(code)
+        nets = [n_ for n_ in sim.block if n_.op not in 'r@']
+        if len(secs) != len(nets):
+            bad_text += 1
+            examples.append({'why': 'number of // net sections %d differs from the number of combinational nets %d' % (len(secs), len(nets))})
+            continue
+        for (hdr, lines), net in zip(secs, nets):
+            if net.op not in C_OPS:
+                ctx.count('c-op-not-modelled', net.op)
+                continue
+            argn = [sim.varname[a] for a in net.args]
+            if len(set(argn)) != len(argn):
+                skipped += 1
+                continue
+            n_nets += 1
+            ctx.count('c-net', net.op)
+            req = {'cmd': 'cemit', 'op': net.op, 'widths': [len(a) for a in net.args], 'wd': len(net.dests[0]),
+                   'param': list(net.op_param) if net.op == 's' else []}
+            try:
+                req['text'] = cparse.parse_net(lines, argn, sim.varname[net.dests[0]])
+            except cparse.CParseError as e:
+                bad_text += 1
+                examples.append({'net': str(net).strip(), 'why': 'generated text outside the modelled fragment: %s' % e, 'text': lines[:6]})
+                continue
+            cases = [[gen.rand_value(rng, len(a)) for a in net.args] for _ in range(4)]
+            req['cases'] = cases
+            r = ctx.driver.ask(req)
+            if not r.get('ok'):
+                raise RuntimeError('cemit: %s' % r)
+            if not r['same']:
+                bad_text += 1
+                if len(examples) < 4:
+                    examples.append({'net': str(net).strip(), 'text': lines[:8], 'parsed': req['text'][:4], 'model': r['model'][:4]})
+            want = [c_expected(net, c) for c in cases]
+            if r['vals'] != want:
+                bad_val += 1
+                j = next(i for i in range(len(want)) if r['vals'][i] != want[i])
+                if len(examples) < 6:
+                    examples.append({'net': str(net).strip(), 'operands': cases[j], 'model_program_gives': r['vals'][j], 'documented': want[j]})
+    ctx.oblige('translator:C statements of every combinational net = Model/Sim/CLimb.lean program', bad_text == 0,
+               '%d of %d nets differ (%d skipped: one wire used as two operands)' % (bad_text, n_nets, skipped))
+    ctx.oblige('model:CLimb program executed on operand values = documented value of the net', bad_val == 0,
+               '%d of %d nets differ' % (bad_val, n_nets))
+    if examples:
+        ctx.extra['climb_tie_examples'] = examples[:6]
+    ctx.evaluations += n_nets
+
+
 def main(ctx):
     proofs_ok = proof_gate(ctx, gen_modules=['SimpleFunc', 'FastEmit'])
     nfast = ctx.n(600, 12000)
@@ -152,6 +254,7 @@ def main(ctx):
             if len(ctx.violations) >= 6:
                 break
     select_tie(ctx)
+    climb_tie(ctx)
     # memory histories whose addresses collide in their low bits (hash buckets of the C backend), rewriting older entries
     from checks import c08
     for k in range(ctx.n(12, 200)):
